@@ -43,13 +43,15 @@ class FuncInfo:
 
 
 class Module:
-    def __init__(self, name, path, source):
+    def __init__(self, name, path, source, tree=None):
         self.name = name          # e.g. "interpreter", "db/file_cache"
         self.path = path
         self.source = source
-        with warnings.catch_warnings():
-            warnings.simplefilter("ignore")
-            self.tree = ast.parse(source, filename=path)
+        if tree is None:
+            with warnings.catch_warnings():
+                warnings.simplefilter("ignore")
+                tree = ast.parse(source, filename=path)
+        self.tree = tree
         from .normalize import normalize
         self.normal_form = normalize(name, self.tree)
         SHARED = (ast.expr_context, ast.boolop, ast.operator, ast.unaryop, ast.cmpop)   # CPython shares one instance of each per interpreter
@@ -118,30 +120,8 @@ class Repo:
         self.digest = h.hexdigest()[:16]
 
     def _load(self, overrides, h):
-        # first pass: every module's raw syntax tree, for the repository-wide summaries the normaliser needs
-        raw = []
-        srcs = {}
-        for dp, dn, fn in sorted(os.walk(self.pkg)):
-            dn.sort()
-            if "__pycache__" in dp:
-                continue
-            for f in sorted(fn):
-                if f.endswith(".py"):
-                    path = os.path.join(dp, f)
-                    name = os.path.relpath(path, self.pkg)[:-3]
-                    src_ = overrides.get(name)
-                    if src_ is None:
-                        with open(path, encoding="utf-8") as fh:
-                            src_ = fh.read()
-                    srcs[name] = src_
-                    try:
-                        with warnings.catch_warnings():
-                            warnings.simplefilter("ignore")
-                            raw.append(ast.parse(src_))
-                    except SyntaxError as e:
-                        raise AnalysisError(f"cannot parse {path}: {e}")
-        from . import normalize as _nz
-        _nz.prepare(raw)
+        # parse everything first: the normaliser needs a view of the whole repository (renames, parameter-mutation summaries)
+        trees, srcs, paths = {}, {}, {}
         for dp, dn, fn in sorted(os.walk(self.pkg)):
             dn.sort()
             if "__pycache__" in dp:
@@ -150,17 +130,23 @@ class Repo:
                 if not f.endswith(".py"):
                     continue
                 path = os.path.join(dp, f)
-                rel = os.path.relpath(path, self.pkg)
-                name = rel[:-3]
-                src = overrides.get(name)
-                if src is None:
+                name = os.path.relpath(path, self.pkg)[:-3]
+                src_ = overrides.get(name)
+                if src_ is None:
                     with open(path, encoding="utf-8") as fh:
-                        src = fh.read()
-                h.update(name.encode()); h.update(src.encode())
+                        src_ = fh.read()
+                h.update(name.encode()); h.update(src_.encode())
                 try:
-                    self.modules[name] = Module(name, path, src)
+                    with warnings.catch_warnings():
+                        warnings.simplefilter("ignore")
+                        trees[name] = ast.parse(src_, filename=path)
                 except SyntaxError as e:
                     raise AnalysisError(f"cannot parse {path}: {e}")
+                srcs[name], paths[name] = src_, path
+        from . import normalize as _nz
+        self.renames = _nz.prepare(trees)
+        for name in trees:
+            self.modules[name] = Module(name, paths[name], srcs[name], tree=trees[name])
 
     # ---- lookup
     def module(self, name):
